@@ -255,6 +255,11 @@ pub trait Dr<C: Col>: Sized {
     }
     /// the style is completely transparent
     fn transparent(&self) -> bool;
+    /// `pixels()` consumed in other ways than `next()` (count, last, fold, nth ... from partly
+    /// consumed states) against the reference sequence; None = agrees / not a styled primitive
+    fn pixels_consumed_differently(&self, _reference: &[Pixel<C>]) -> Option<String> {
+        None
+    }
 }
 
 pub trait Visitor<C: Col> {
@@ -285,6 +290,11 @@ macro_rules! dr_styled {
             }
             fn transparent(&self) -> bool {
                 self.style.is_transparent()
+            }
+            fn pixels_consumed_differently(&self, reference: &[Pixel<C>]) -> Option<String> {
+                let n = reference.len();
+                let first_row = reference.iter().take_while(|q| q.0.y == reference[0].0.y).count();
+                crate::target::consumer_disagreement(&|| self.pixels(), reference, &[0, 1, first_row, n / 2, n])
             }
         }
     )*};
